@@ -506,8 +506,10 @@ class Engine:
                     raise Unsupported('too few indices')
         return out
 
+    const_heap = {}
+
     def sel(self, st, arr, idxs):
-        t = st.heap[arr.base]
+        t = st.heap[arr.base] if arr.base in st.heap else self.const_heap[arr.base]
         for b in self.base_index(arr, idxs):
             t = z3.Select(t, b)
         return t
@@ -583,6 +585,7 @@ class Engine:
                 if key not in self._modconst:
                     s0 = St({'__mod__': mi}, {}, [])
                     self._modconst[key] = self.ev(mi.assigns[name], s0)
+                    self.const_heap.update(s0.heap)       # module-level constant tables
                 return self._modconst[key]
             if name in mi.aliases:
                 return ModRef(mi.aliases[name])
@@ -627,7 +630,7 @@ class Engine:
             if full == 'numba.config.NUMBA_NUM_THREADS':
                 return self.symconst('NUMBA_NUM_THREADS', 'int', [lambda t: t >= 1])
             if full == 'numpy.pi':
-                return SV(z3.Real('pi'), 'real')
+                return self.symconst('pi', 'real', [lambda t: z3.And(t > 3, t < 4)])
             return Builtin(full)
         if isinstance(v, Arr):
             if a == 'shape':
@@ -889,6 +892,27 @@ class Engine:
                 raise Unsupported('concrete division by zero')
         if isinstance(a, Arr) or isinstance(b, Arr):
             raise Unsupported('whole-array arithmetic ' + (norm_src(n) if n is not None else ''))
+        if isinstance(op, ast.Pow) and isinstance(b, (int, float)) and not isinstance(b, bool) and isinstance(a, SV):
+            # real power with a concrete exponent: integers by repeated multiplication (negative: reciprocal),
+            # half-integers through s = sqrt(a) (s >= 0, s*s = a)
+            e2 = fractions.Fraction(b) * 2
+            if e2.denominator == 1 and abs(e2) <= 64 and (a.ty in ('int', 'real')) and (e2 % 2 != 0 or b < 0 or isinstance(b, float)):
+                ar = self.toreal(a).t
+                m, half = divmod(int(abs(e2)), 2)
+                r = z3.RealVal(1)
+                for _ in range(m):
+                    r = r * ar
+                if half:
+                    sq = fresh('sqrt', z3.RealSort())
+                    if not self.specmode:
+                        self.oblige(st, 'domain', ar >= 0, n)
+                    st.pc.append(z3.And(sq >= 0, sq * sq == ar))
+                    r = r * sq
+                if b < 0:
+                    if not self.specmode:
+                        self.oblige(st, 'divzero', ar != 0, n)
+                    r = 1 / r
+                return SV(r, 'real')
         a, b = self.tosv(a), self.tosv(b)
         t = type(op)
         if t in (ast.LShift, ast.RShift, ast.BitAnd, ast.BitOr, ast.BitXor):
@@ -1416,6 +1440,13 @@ class Engine:
             src = norm_src(s, 200)
             for pref, hs in hints.items():
                 if src.startswith(pref):
+                    if hs and isinstance(s, (ast.Assign, ast.AugAssign)) and any('__rhs__' in h for h in hs):
+                        # the value about to be stored/added, for hints that constrain it (evaluated without obligations)
+                        self.specmode += 1
+                        try:
+                            st.env['__rhs__'] = self.ev(s.value, st)
+                        finally:
+                            self.specmode -= 1
                     for h in hs:
                         self.hint(st, h, s)
         return m(s, st)
